@@ -38,11 +38,18 @@ const inlineDepth = 3
 //go:embed baseline_funcs.txt
 var baselineFuncsText string
 
+// each line: key<TAB>receiver|signature
+var baselineSig = map[string]string{}
+
 var baselineFuncs = func() map[string]bool {
 	m := map[string]bool{}
 	for _, l := range strings.Split(baselineFuncsText, "\n") {
 		if l = strings.TrimSpace(l); l != "" {
-			m[l] = true
+			parts := strings.SplitN(l, "\t", 2)
+			m[parts[0]] = true
+			if len(parts) == 2 {
+				baselineSig[parts[0]] = parts[1]
+			}
 		}
 	}
 	return m
@@ -463,4 +470,24 @@ func (s *Scope) boundLastResult(top ast.Node, h *Func) types.Object {
 		return o
 	}
 	return nil
+}
+
+// sigString: receiver type name and parameter/result TYPES (no names) of a function.
+func sigString(f *Func) string {
+	sig, _ := f.Obj.Type().(*types.Signature)
+	if sig == nil {
+		return ""
+	}
+	var ps, rs []string
+	for i := 0; i < sig.Params().Len(); i++ {
+		ps = append(ps, short(types.TypeString(sig.Params().At(i).Type(), nil)))
+	}
+	for i := 0; i < sig.Results().Len(); i++ {
+		rs = append(rs, short(types.TypeString(sig.Results().At(i).Type(), nil)))
+	}
+	v := ""
+	if sig.Variadic() {
+		v = "..."
+	}
+	return recvName(f) + "|(" + strings.Join(ps, ",") + v + ")(" + strings.Join(rs, ",") + ")"
 }
